@@ -11,7 +11,9 @@ import (
 type fmtGen struct{ r *common.Rng }
 
 var dirLetters = []string{"A", "S", "D", "B", "O", "X", "R", "C", "%", "&", "~", "T", "*", "?", "(", ")", "[", "]", ";", "{", "}", "P", "F", "E", "G", "$", "W", "^", "|", "<", ">", "\n", "a", "d", "r", "x", "I", "_"}
-var fmtArgs = []string{"0", "1", "-5", "42", "1000", "123456789", "100000000000000000000", "3/4", "2.5", "nil", "t", "\"s\"", "\"\"", "#\\a", "'foo", "'(1 2 3)", "'()", "'((1 2) (3))", "'(a . b)", "\"~A\""}
+var fmtArgs = []string{"0", "1", "-5", "42", "1000", "123456789", "100000000000000000000", "3/4", "2.5", "nil", "t", "\"s\"", "\"\"", "#\\a", "'foo", "'(1 2 3)", "'()", "'((1 2) (3))", "'(a . b)", "\"~A\"",
+	// floats with one significant digit, zero, large and small (added after a review: ~F of 0.001 and of 0.0 faulted)
+	"0.001", "100.0", "0.0", "-0.0", "1d10", "1d-10", "123456.789", "-2.5"}
 
 func (g *fmtGen) param() string {
 	switch g.r.Intn(9) {
@@ -30,7 +32,8 @@ func (g *fmtGen) param() string {
 	case 6:
 		return fmt.Sprint(2 + g.r.Intn(40))
 	case 7:
-		return "99999999999999999999"
+		// does not fit an int64 / fits but is far too large for a buffer / just above array-dimension-limit
+		return common.Pick(g.r, []string{"99999999999999999999", "100000000000", "300000000", "-400"})
 	default:
 		return fmt.Sprint(g.r.Intn(12))
 	}
@@ -226,7 +229,7 @@ func chunks(ctl string) (out []string) {
 	return
 }
 
-// simple draws a control string over literal text and the four fully modelled directives (~% ~& ~~ ~|,
+// simple draws a control string over literal text and the fully modelled directives (~% ~& ~~ ~| ~* ~T,
 // with prefix parameters and modifiers) plus, rarely, another directive letter; returns the control
 // string, the Lisp argument text and the arguments as Gallina terms.
 func (g *fmtGen) simple() (string, string, []string) {
@@ -254,7 +257,7 @@ func (g *fmtGen) simple() (string, string, []string) {
 				case 4:
 					sb.WriteString(fmt.Sprint(-g.r.Intn(4)))
 				case 5:
-					sb.WriteString("99999999999999999999")
+					sb.WriteString(common.Pick(g.r, []string{"99999999999999999999", "100000000000", "300000000", "-300000000"}))
 				case 6:
 					sb.WriteString("+" + fmt.Sprint(g.r.Intn(3)))
 				default:
@@ -273,7 +276,7 @@ func (g *fmtGen) simple() (string, string, []string) {
 			sb.WriteString("::")
 		}
 		if g.r.Chance(92) {
-			sb.WriteString(common.Pick(g.r, []string{"%", "&", "~", "|"}))
+			sb.WriteString(common.Pick(g.r, []string{"%", "&", "~", "|", "%", "&", "*", "*", "T", "T", "T", "t"}))
 		} else if g.r.Chance(50) {
 			sb.WriteString(common.Pick(g.r, []string{"Z", "!", "V", "q", "\"", ".", ")", "]"}))
 		}
@@ -292,6 +295,12 @@ func (g *fmtGen) simple() (string, string, []string) {
 		case 2:
 			args.WriteString(" \"s\"")
 			gargs = append(gargs, "FOther")
+		case 3:
+			// around and beyond the bound on directive parameters (array-dimension-limit = 268435456); the
+			// bound itself only negated, the model would build 2^28 characters
+			z := common.Pick(g.r, []string{"300000000", "-300000000", "100000000000000000000", "-268435456", "268435457", "-268435457"})
+			args.WriteString(" " + z)
+			gargs = append(gargs, fmt.Sprintf("(FInt (%s)%%Z)", z))
 		default:
 			z := g.r.Intn(7) - 2
 			args.WriteString(fmt.Sprintf(" %d", z))
